@@ -560,6 +560,137 @@ def r7_writer_stateless(ctx, res):
     report(ctx, res, {'lmf'}, 'lmf')
 
 
+# ---------------------------------------------------------------------------
+# R8: numeric values are not written "when truthy"
+
+def _numeric(t):
+    from ..model import U, Prim
+    if isinstance(t, Prim):
+        return t.name in ('float', 'int')
+    if isinstance(t, U):
+        return any(_numeric(m) for m in t.ms)
+    return False
+
+
+def numeric_truthiness_tests(ctx, f):
+    """(node, type) for every truthiness test in `f` whose operand has a numeric model type (the value 0 is falsy)"""
+    from ..model import Typer, Lit, elem, union, ANY
+    ty = Typer(ctx.model, ctx, f)
+    env = ty.param_env()
+    out = []
+
+    def items_value_type(it, env2):
+        # `for k, v in X.items()` with X a display: v ranges over the types of its values
+        if isinstance(it, ast.Call) and isinstance(it.func, ast.Attribute) and it.func.attr in ('items', 'values') and not it.args:
+            t = ty.typeof(it.func.value, env2)
+            if isinstance(t, Lit) and t.vals:
+                vs = list(t.vals.values())
+                u = vs[0]
+                for v in vs[1:]:
+                    u = union(u, v)
+                return u
+        return None
+
+    def test(t, env2):
+        while isinstance(t, ast.UnaryOp) and isinstance(t.op, ast.Not):
+            t = t.operand
+        if isinstance(t, ast.BoolOp):
+            for v in t.values:
+                test(v, env2)
+            return
+        if isinstance(t, (ast.Compare, ast.Constant)):
+            return
+        tt = ty.typeof(t, env2)
+        if _numeric(tt):
+            out.append((t, tt))
+
+    def expr(e, env2):
+        if isinstance(e, ast.IfExp):
+            test(e.test, env2)
+        if isinstance(e, ast.BoolOp):
+            for v in e.values[:-1]:
+                test(v, env2)
+        if isinstance(e, (ast.ListComp, ast.SetComp, ast.GeneratorExp, ast.DictComp)):
+            env3 = dict(env2)
+            for g in e.generators:
+                expr(g.iter, env3)
+                vt = items_value_type(g.iter, env3)
+                if vt is not None and isinstance(g.target, ast.Tuple) and len(g.target.elts) == 2 and isinstance(g.target.elts[1], ast.Name) \
+                        and g.iter.func.attr == 'items':
+                    ty.bind(g.target.elts[0], ANY, env3)
+                    env3[g.target.elts[1].id] = vt
+                elif vt is not None and isinstance(g.target, ast.Name):
+                    env3[g.target.id] = vt
+                else:
+                    ty.bind(g.target, elem(ty.typeof(g.iter, env3)), env3)
+                for c in g.ifs:
+                    test(c, env3)
+                    expr(c, env3)
+            for fld in ('elt', 'key', 'value'):
+                if hasattr(e, fld):
+                    expr(getattr(e, fld), env3)
+            return
+        for c in ast.iter_child_nodes(e):
+            if isinstance(c, ast.expr):
+                expr(c, env2)
+
+    def block(stmts, env2):
+        for st in stmts:
+            if isinstance(st, (ast.FunctionDef, ast.AsyncFunctionDef, ast.ClassDef)):
+                continue
+            if isinstance(st, (ast.If, ast.While)):
+                test(st.test, env2)
+            if isinstance(st, (ast.For, ast.AsyncFor)):
+                expr(st.iter, env2)
+                vt = items_value_type(st.iter, env2)
+                if vt is not None and isinstance(st.target, ast.Tuple) and len(st.target.elts) == 2 and isinstance(st.target.elts[1], ast.Name) \
+                        and st.iter.func.attr == 'items':
+                    env2[st.target.elts[1].id] = vt
+                else:
+                    ty.bind(st.target, elem(ty.typeof(st.iter, env2)), env2)
+            for c in ast.iter_child_nodes(st):
+                if isinstance(c, ast.expr):
+                    expr(c, env2)
+            if isinstance(st, ast.Assign):
+                t = ty.typeof(st.value, env2)
+                for tg in st.targets:
+                    if isinstance(tg, (ast.Name, ast.Tuple, ast.List)):
+                        ty.bind(tg, t, env2)
+            elif isinstance(st, ast.AnnAssign) and st.value is not None and isinstance(st.target, ast.Name):
+                env2[st.target.id] = ty.typeof(st.value, env2)
+            for fld in ('body', 'orelse', 'finalbody'):
+                blk = getattr(st, fld, None)
+                if isinstance(blk, list) and blk and isinstance(blk[0], ast.stmt):
+                    block(blk, env2)
+            for h in getattr(st, 'handlers', []) or []:
+                block(h.body, env2)
+    block(f.node.body, env)
+    return out
+
+
+def r8_falsy_numbers_survive(ctx, res):
+    """a model value of numeric type (confidenceScore: float, Count.value: int) is never written - by lmf.dump or by the exporter -
+    only "when truthy": 0 / 0.0 is a legitimate value, a truthiness filter drops it and load(dump(R)) != R.  Typed walk
+    over the writer and exporter functions; every truthiness test (if / conditional expression / comprehension filter /
+    left operand of and/or) whose operand has a numeric model type is a finding."""
+    n = 0
+    for ms in ('lmf', '_export'):
+        m = ctx.repo.mod(ms)
+        for f in m.funcs.values():
+            if ms == 'lmf' and not (f.name.startswith(('_build_', '_dump_')) or f.name in ('_meta_dict', 'dump', '_tostring')):
+                continue
+            n += 1
+            bad = numeric_truthiness_tests(ctx, f)
+            key = f'numeric-truthiness:{f.key}'
+            res.inst(key, m.loc(f.node), f'{len(bad)} numeric truthiness tests')
+            for node, t in bad[:1]:
+                res.find(key, m.loc(node), f'{f.qualname} tests the truthiness of `{norm(node)[:60]}` (type {t}): the numeric value 0 is falsy, so a '
+                                           f'stored 0 / 0.0 is treated as absent and lost by the writer')
+    # positive control: the classifier sees a numeric filter in a synthetic writer
+    if n < 25:
+        raise AnalysisError(f'only {n} writer / exporter functions examined for numeric truthiness tests')
+
+
 RULES = [
     ('C02-R1', r1_tables, 40),
     ('C02-R2', r2_model_reader, 70),
@@ -568,4 +699,5 @@ RULES = [
     ('C02-R5', r5_escaping, 7),
     ('C02-R6', r6_header_constants, 5),
     ('C02-R7', r7_writer_stateless, 3),
+    ('C02-R8', r8_falsy_numbers_survive, 25),
 ]
